@@ -121,6 +121,8 @@ def get_engine(h):
     e.models = dict(e.base_models)
     e.models.update(h.models)
     e.extra_interp = set(getattr(f, "__code__", None) for f in getattr(h, "interpret", ()))
+    cc = os.environ.get("VERIF_CROSSCHECK")
+    e.crosscheck_every = int(cc) if cc else (97 if TIER == "thorough" else 499)
     e.loop_bound = h.loop_bound
     e.solver.set("timeout", h.timeout_ms)
     e.violations = []
@@ -447,7 +449,8 @@ def finish(pid, tier, seed, harnesses, agg, funcs, wall, timed_out, kf):
     os.makedirs(os.path.join(ROOT, "replays"), exist_ok=True)
     os.makedirs(os.path.join(ROOT, "evidence"), exist_ok=True)
     tot = dict(paths=0, decisions=0, checks=0, solver_s=0.0, assert_queries=0, assert_unsat=0, assert_s=0.0,
-               witness_replays=0, aborted=0, lemma_s=0.0)
+               witness_replays=0, aborted=0, lemma_s=0.0, cc_agree=0, cc_undecided=0, cc_disagree=0, cc_skipped=0,
+               unrealised_model_choices=0)
     hsummaries = []
     samples = []
     for h in harnesses:
@@ -528,7 +531,13 @@ def finish(pid, tier, seed, harnesses, agg, funcs, wall, timed_out, kf):
                         "paths explored, transitions = symbolic branch decisions, obligations = assertion queries "
                         "(PC and not cond), discharged = those answered unsat",
             solver=dict(engine="z3 " + _z3v(), checks=tot["checks"], solver_s=round(tot["solver_s"], 2),
-                        assertion_solver_s=round(tot["assert_s"], 2), lemma_s=round(tot["lemma_s"], 2), unknown=0 if not inconclusive else None),
+                        assertion_solver_s=round(tot["assert_s"], 2), lemma_s=round(tot["lemma_s"], 2), unknown=0 if not inconclusive else None,
+                        second_solver=dict(engine="cvc5 1.0.3 (binary)", sampled_unsat_queries=tot["cc_agree"] + tot["cc_undecided"] + tot["cc_disagree"],
+                                           agree=tot["cc_agree"], undecided_or_unparsed=tot["cc_undecided"], disagree=tot["cc_disagree"],
+                                           skipped_fp_theory=tot["cc_skipped"],
+                                           note="every 499th (quick) / 97th (thorough) unsat assertion query per worker (VERIF_CROSSCHECK=n: every n-th); "
+                                                "a disagreement makes the run inconclusive"),
+                        unrealised_model_choices=tot["unrealised_model_choices"]),
             harnesses=hsummaries if len(hsummaries) <= 80 else hsummaries[:40] + [dict(note="%d further harnesses of the same shape omitted from this list (all counted in the totals)" % (len(hsummaries) - 40))],
             harness_count=len(hsummaries),
             functions_interpreted=dict(sorted((k, v) for k, v in funcs.items() if not k.startswith("specs."))),
